@@ -794,7 +794,7 @@ class C09(Monitor):
                 avail.append("plainfunc")
                 avail.append("named")
                 if m != "apply":
-                    avail += ["nc0", "ncneg", "emptylist"]
+                    avail += ["nc0", "ncneg"]
                 avail += [f"dup:{i}" for i in range(len(live_names))]
             for n in range(0, len(avail) + 1):
                 for sub in itertools.combinations(avail, n):
@@ -803,6 +803,9 @@ class C09(Monitor):
                     if sum(1 for x in sub if x.startswith("dup:")) > 1:
                         continue
                     alts.append((m, sub))
+            if not simple and m != "apply":
+                # the argument iterable as an empty sized collection (instead of a generator), alone and with a bad num_concurrent
+                alts += [(m, ("emptylist",)), (m, ("nc0", "emptylist")), (m, ("ncneg", "emptylist"))]
         alts += [("set_size_neg", (-1,)), ("set_size_neg", (-2,)), ("set_size_neg", (-3,)),
                  ("ctor_neg", ()), ("locklock", ()), ("unlockunlock", ())]
         return alts
